@@ -174,46 +174,61 @@ func judge(w *sup.Worker, c Case) (string, string) {
 }
 
 // hasShorthandSelfRef recognises the recorded known finding (see C04) in a description: an object whose only
-// property is a reference to the object itself.
+// property is a reference that leads back to the object - directly, or through other objects whose only property is
+// a reference (the shorthand passes a lone value down such a chain without ever consuming it).
 func hasShorthandSelfRef(v val.V) bool {
-	if strings.HasPrefix(v.T, "map") {
-		var id string
-		var props *val.V
-		for i := range v.M {
-			if v.M[i].K.S == "id" && v.M[i].V.T == "string" {
-				id = v.M[i].V.S
+	next := map[string]string{} // one-property object ID -> ID its only property refers to
+	var walk func(v val.V)
+	walk = func(v val.V) {
+		if strings.HasPrefix(v.T, "map") {
+			var id string
+			var props *val.V
+			for i := range v.M {
+				if v.M[i].K.S == "id" && v.M[i].V.T == "string" {
+					id = v.M[i].V.S
+				}
+				if v.M[i].K.S == "properties" && strings.HasPrefix(v.M[i].V.T, "map") {
+					props = &v.M[i].V
+				}
 			}
-			if v.M[i].K.S == "properties" && strings.HasPrefix(v.M[i].V.T, "map") {
-				props = &v.M[i].V
-			}
-		}
-		if id != "" && props != nil && len(props.M) == 1 {
-			for _, e := range props.M[0].V.M {
-				if e.K.S == "type" {
-					isRef, target := false, ""
-					for _, f := range e.V.M {
-						if f.K.S == "type_id" && f.V.S == "ref" {
-							isRef = true
+			if id != "" && props != nil && len(props.M) == 1 {
+				for _, e := range props.M[0].V.M {
+					if e.K.S == "type" {
+						isRef, target := false, ""
+						for _, f := range e.V.M {
+							if f.K.S == "type_id" && f.V.S == "ref" {
+								isRef = true
+							}
+							if f.K.S == "id" {
+								target = f.V.S
+							}
 						}
-						if f.K.S == "id" {
-							target = f.V.S
+						if isRef {
+							next[id] = target
 						}
-					}
-					if isRef && target == id {
-						return true
 					}
 				}
 			}
-		}
-		for i := range v.M {
-			if hasShorthandSelfRef(v.M[i].V) {
-				return true
+			for i := range v.M {
+				walk(v.M[i].V)
 			}
 		}
+		for i := range v.L {
+			walk(v.L[i])
+		}
 	}
-	for i := range v.L {
-		if hasShorthandSelfRef(v.L[i]) {
-			return true
+	walk(v)
+	for start := range next {
+		at := start
+		for i := 0; i <= len(next); i++ {
+			n, ok := next[at]
+			if !ok {
+				break
+			}
+			if n == start {
+				return true
+			}
+			at = n
 		}
 	}
 	return false
